@@ -17,6 +17,7 @@ func init() {
 				return []registry.Job{
 					{Name: "eth-3o-gov", Spec: &Spec{Chains: []string{"eth"}, NOracle: 3, Gov: true}, Depth: 5, ShardDepth: 2},
 					{Name: "eth-2o-governance", Spec: &Spec{Chains: []string{"eth"}, NOracle: 2, Gov: true, GovOnly: true}, Depth: 7, ShardDepth: 2},
+					{Name: "eth-3o-zero-power-oracles", Spec: &Spec{Chains: []string{"eth"}, NOracle: 3, DustStake: 50}, Depth: 6, ShardDepth: 2},
 					{Name: "tron-2o", Spec: &Spec{Chains: []string{"tron"}, NOracle: 2}, Depth: 7, ShardDepth: 2},
 					{Name: "eth+bsc-2o", Spec: &Spec{Chains: []string{"eth", "bsc"}, NOracle: 2}, Depth: 6, ShardDepth: 2},
 				}
@@ -25,6 +26,7 @@ func init() {
 				{Name: "eth-2o-obligations", Spec: &Spec{Chains: []string{"eth"}, NOracle: 2}, Depth: 5, ShardDepth: 2},
 				{Name: "eth-2o-governance", Spec: &Spec{Chains: []string{"eth"}, NOracle: 2, Gov: true, GovOnly: true}, Depth: 5, ShardDepth: 2},
 				{Name: "eth-2o-mixed", Spec: &Spec{Chains: []string{"eth"}, NOracle: 2, Gov: true}, Depth: 3, ShardDepth: 2},
+				{Name: "eth-2o-zero-power-oracles", Spec: &Spec{Chains: []string{"eth"}, NOracle: 2, DustStake: 50}, Depth: 4, ShardDepth: 1},
 			}
 		},
 	})
